@@ -6,7 +6,7 @@ from translators import tr_c05
 
 PID = "C05"
 CLAIM = True
-MANIFEST_TEXT = ("37 Lean 4 theorems (lean/DuneVerif/Props/C05.lean) about a message-level model of Interface::build and "
+MANIFEST_TEXT = ("44 Lean 4 theorems (lean/DuneVerif/Props/C05.lean) about a message-level model of Interface::build and "
                  "BufferedCommunicator (two passes count/add of buildInterface with the attribute tests REGENERATED from "
                  "interface.hh on every run, strip, messageInformation_ layout with start in elements and size in bytes, gather "
                  "into one buffer, per-neighbour Issend/Irecv, receive buffer written by arriving messages in any order on top "
@@ -37,13 +37,29 @@ MANIFEST_TEXT = ("37 Lean 4 theorems (lean/DuneVerif/Props/C05.lean) about a mes
                  "datatype_copy_spec(_backward), interface_tests_regenerated / attrsets_spec / setExpr_spec / attrset_tables "
                  "(the attribute tests of buildInterface and the contains functions of all six enumset.hh classes, as "
                  "REGENERATED from the source, have the documented meaning; every nesting of the classes denotes the right "
-                 "set).  The model is run against the real RemoteIndices::rebuild + Interface::build/free + "
+                 "set); round three: the processes are not synchronised -- sendRecv_completes_all (the bounds of the MPI_Waitany "
+                 "loop and of the wait for the sends, REGENERATED from communicator.hh, cover every posted receive and every "
+                 "posted send), async_refines_history / async_history_is_runSt (an asynchronous transition system in which "
+                 "every process walks through the history at its own pace, a posted send stays outstanding until it is "
+                 "transferred and the transfer reads the sender's buffer AS IT IS THEN (rendezvous), a process leaves sendRecv "
+                 "when its receives are complete and the sends it waits for are transferred, the user may assign new values "
+                 "between communications: every reachable state agrees, process by process, with the collective history "
+                 "semantics runSt for the landing/completion orders the run took, which are admissible schedules), "
+                 "async_message_is_gathered (whatever MPI can transfer in a reachable state is the message gathered for the "
+                 "communication the receiver is in), async_returns_without_pending_send, async_progress / async_measure (no "
+                 "reachable state with an unfinished process is stuck; every move decreases a natural number: termination "
+                 "over whole histories with late processes).  The model is run against the real RemoteIndices::rebuild + Interface::build/free + "
                  "BufferedCommunicator (build, forward/backward histories of up to 8 calls, free()+build and build-again life "
                  "cycles with other attribute sets, recording and stock CopyGatherScatter policies) and DatatypeCommunicator, "
                  "Selection/UncachedSelection, all enumset.hh set classes incl. nested Combine/NegateSet<Combine>/combine() "
-                 "under mpirun -np 1..4 (quick) / 1..8 (thorough) with PMPI-permuted MPI_Waitany order; the harness oracle "
-                 "recomputes interface lists, the multiset of scatter calls seen by a recording policy and the final container "
-                 "contents from the property's definition.")
+                 "under mpirun -np 1..4 (quick) / 1..8 (thorough) with PMPI-permuted MPI_Waitany order, ranks that are late "
+                 "for a communication (they enter it only when all others have finished the build's communications or a "
+                 "timeout expired), new values assigned to all containers between communications, and a low shared-memory "
+                 "eager limit so that messages of >= 16 bytes use the rendezvous transport; the harness oracle recomputes "
+                 "interface lists, the multiset of scatter calls seen by a recording policy and the final container contents "
+                 "from the property's definition, and a request tracker behind the MPI profiling interface "
+                 "(harness/pmpi_c05.cc) reports a send buffer that is modified, received into or released before the program "
+                 "has observed the send's completion, and requests never completed.")
 MANIFEST_NOTE = ("Trusted: Lean kernel (+propext/Classical.choice/Quot.sound), tr_c05.py, the hand-written model's fidelity "
                  "(differential runs only, bounded: P<=8, <=12 global indices per case, <=3 components, <=8 communications "
                  "and <=3 rebuilds per communicator), harness oracle, g++/ASan/UBSan, OpenMPI (reliable, pairwise FIFO, "
@@ -56,8 +72,17 @@ MANIFEST_NOTE = ("Trusted: Lean kernel (+propext/Classical.choice/Quot.sound), t
                  "compared (copy, non-overlapping receives only); MPI_Type_create_hindexed, displacement arithmetic and "
                  "persistent requests are exercised, not modelled.  Termination is proved at the message level (matching of "
                  "posted operations, no deadlock state, decreasing measure), liveness of MPI itself is assumed; hangs of the "
-                 "real code are detected by a per-case alarm.  If a refactoring takes buildInterface's attribute tests or an "
-                 "enumset.hh contains body outside the translator's grammar, the translator falls back to its built-in "
+                 "real code are detected by a per-case alarm.  Round three: that consecutive communications do not mix is no "
+                 "longer assumed but proved from the completion loops of sendRecv in the asynchronous model; what remains "
+                 "trusted about MPI there: pairwise FIFO matching, a send's payload is read from its buffer at one moment "
+                 "between posting and completion (not piecewise), a synchronous send completes only after it was matched.  "
+                 "Whether a too-early return of sendRecv delivers wrong VALUES in a given run depends on timing and "
+                 "transport; the schedule-independent criterion checked on every case is MPI's own rule (buffer untouched "
+                 "until completion observed, every request completed), wrong values are reported in addition when the late "
+                 "ranks and the rendezvous transport expose them.  The low eager limit is an Open MPI MCA parameter "
+                 "(btl_vader_eager_limit=64, set by the harness unless DV_C05_EAGER=0); with another MPI only the tracker "
+                 "rule applies.  If a refactoring takes buildInterface's attribute tests or an "
+                 "enumset.hh contains body or the completion loops of sendRecv outside the translator's grammar, the translator falls back to its built-in "
                  "transcription (counted as translator_fallbacks in the evidence) and that item is tied by the differential "
                  "run only.  Needs fixes/C05_build_twice.patch (BufferedCommunicator::build on a built communicator kept stale "
                  "message information) and fixes/C05_combine_type.patch (Combine had no member Type: nested/negated Combine did "
@@ -65,7 +90,7 @@ MANIFEST_NOTE = ("Trusted: Lean kernel (+propext/Classical.choice/Quot.sound), t
                  "CommPolicy<VariableBlockVector<..>> (the class lives in dune-istl), RemoteIndicesStateError of an unsynced "
                  "RemoteIndices (C04's isSynced), Interface::operator== (compares the argument with itself; not part of the "
                  "property).")
-TECHNIQUE = "Lean 4 proof over a message-level stateful model of Interface/BufferedCommunicator (induction over histories, deadlock-freedom of a phase transition system) + translator for the attribute tests and enumset.hh + differential correspondence under MPI with PMPI schedule steering and a definition-level oracle"
+TECHNIQUE = "Lean 4 proof over a message-level stateful model of Interface/BufferedCommunicator (induction over histories, refinement of an asynchronous multi-process transition system to the collective semantics, deadlock-freedom + measure) + translator for the attribute tests, enumset.hh and the completion loops of sendRecv + differential correspondence under MPI with PMPI schedule steering, late ranks, a PMPI request-discipline tracker and a definition-level oracle"
 TRANSLATORS = [tr_c05.translate]
 HARNESS = dict(
     sources=["mpi_c05.cc", "pmpi_c05.cc"],
@@ -83,18 +108,22 @@ RULE = ("cases: random decompositions for P ranks: <=8 (thorough <=12) global in
         "DatatypeCommunicator; 1-3 forward/backward calls per build, 30% of the cases with 1-3 further builds of the same "
         "communicator object for other attribute sets (free()+Interface::free()+build, or build again without free; one "
         "attribute more or less, swapped, identical or unrelated sets), up to 8 communications; MPI_Waitany order permuted; "
+        "per run of communications: 20% with a rank that is late for one of them (l<r>; it waits until all others finished "
+        "the build's communications, at most 4 ms), mostly followed by new values in all containers after that "
+        "communication (m<k>), 20% with new values somewhere between two communications; "
         "distinct = distinct op lines; non-trivial = some interface list is non-empty")
 ASSUMPTIONS = [
     "the Lean model lean/DuneVerif/Model/C05.lean is hand-written except for the attribute tests of buildInterface and the contains functions of enumset.hh, which tools/translators/tr_c05.py regenerates from the source (fail-soft: outside its grammar the built-in transcription is used and counted in distribution.translator_fallbacks); its fidelity to interface.hh/communicator.hh rests on this differential run (P <= 8)",
     "remote index lists are defined as the specification proved in C04 (rebuild_spec); the harness runs the real RemoteIndices::rebuild",
-    "MPI is trusted: reliable, pairwise FIFO, non-overtaking; a posted MPI_Issend and the matching posted MPI_Irecv of the same size complete; consecutive communications on one communicator do not mix (a synchronous send completes only when its receive has started)",
+    "MPI is trusted: reliable, pairwise FIFO, non-overtaking; a posted MPI_Issend and the matching posted MPI_Irecv of the same size complete; a send's payload is read from its buffer at one moment between posting and completion; that consecutive communications on one communicator do not mix is PROVED from the completion loops of sendRecv (async_refines_history), not assumed",
+    "a sendRecv that returns with a send pending is reported by MPI's buffer rule (harness/pmpi_c05.cc: buffer modified / received into / released before completion was observed; request never completed), which does not depend on timing; wrong delivered values are additionally reported when late ranks + rendezvous transport (Open MPI MCA btl_vader_eager_limit=64 set by the harness) expose them",
     "theorems assume every global index at most once per index set and process (WF) and equal component counts on both sides of a shared index (SizesByGlobal)",
     "copy policy with more than one sender to an entry: the property only requires one of the sent values (order dependent); proved (copy_some_sender) and checked as such",
     "DatatypeCommunicator: theorems about the index lists behind the datatypes; MPI_Type_create_hindexed/persistent requests are covered by the correspondence run only (copy, cases without overlapping receive buffers)",
     "needs fixes/C05_build_twice.patch and fixes/C05_combine_type.patch applied to the tree under test",
 ]
 TRUSTED = ["g++/libstdc++, ASan/UBSan, OpenMPI", "translator tools/translators/tr_c05.py",
-           "harness/mpi_c05.cc (generator, executor, definition-level oracle, recording policy) + harness/pmpi_sched.cc",
+           "harness/mpi_c05.cc (generator, executor, definition-level oracle, recording policy) + harness/pmpi_c05.cc (request tracker; includes the shared harness/pmpi_sched.cc)",
            "Driver/C05.lean parsing/printing and its open-entry bookkeeping (copy with several senders)"]
 
 
